@@ -140,11 +140,19 @@ func init() {
 		ID: "C06", Quick: 12000, Thorough: 1000000, Level: "exploration",
 		Rule: "2-5 concurrent writer threads (all column kinds, inserts with offset reuse, deletes, merges, multi-block transactions) on a primary whose every commit is tapped inside the block latch and forwarded to a real commit.Channel (consumed by an applier thread after a seeded link delay and replayed on REPLICA-C) and to a real commit.Log on a SimFile (replayed on REPLICA-L through a chunking reader); in odd runs a snapshotter thread takes snapshots meanwhile; schedule drawn per run from uniform/sticky/PCT/round-robin/phase-biased strategies over all hook points; at quiescence Dump(primary)==Dump(REPLICA-C)==Dump(REPLICA-L)==model; non-trivial = at least one commit and at least one scheduling decision with more than one enabled thread; distinct = distinct (interleaving signature, end state)",
 		Gen: func(seed uint64, run int, tier string) *Case {
+			if run%16 == 13 {
+				return genStalled("C06", seed, run) // fault: the consumer of the change stream stalls
+			}
 			return genConc("C06", seed, run, concProfile{minWriters: 2, maxWriters: 5, maxTxns: 3, maxOps: 4, replicas: true, snapshots: run % 2,
 				wUpdate: 6, wMerge: 5, wInsert: 4, wDeleteOwn: 3, wRangeWrite: 1, wKey: 8,
 				pAbort: 0.1, multiBlock: 0.5, maxCols: 8, pKeyCol: 0.2, indexes: true, stableRows: [2]int{2, 8}, linkDelay: 40}, knownAvoid("C06", seed, run))
 		},
-		Exec: func(cs *Case) *World { return runConc(cs, concOracles{replicas: true}) },
+		Exec: func(cs *Case) *World {
+			if cs.World == "stalled" {
+				return runStalled(cs)
+			}
+			return runConc(cs, concOracles{replicas: true})
+		},
 		Real: realComponents, Stub: concStub,
 	})
 	register(&PropDef{
@@ -179,11 +187,19 @@ func init() {
 		ID: "C15", Quick: 10000, Thorough: 600000, Level: "exploration",
 		Rule: "same world as C06 without replicas (in odd runs a snapshotter thread takes snapshots meanwhile, so commits also go to the snapshot recorder); oracle on the recording logger: exactly one commit per (committed transaction, block it changed), nothing for rolled-back, read-only or failing-insert-only transactions, ids distinct and non-zero, per block strictly increasing in the order the commits were applied (= reached the logger), decoded operations equal the issued ones; non-trivial = at least one commit and one real scheduling choice; distinct = distinct (interleaving signature, end state)",
 		Gen: func(seed uint64, run int, tier string) *Case {
+			if run%16 == 13 {
+				return genStalled("C15", seed, run) // fault: the consumer of the change stream stalls
+			}
 			return genConc("C15", seed, run, concProfile{minWriters: 2, maxWriters: 4, minReaders: 0, maxReaders: 1, maxTxns: 3, maxOps: 4, snapshots: run % 2,
 				wUpdate: 8, wMerge: 4, wInsert: 4, wDeleteOwn: 3, wRangeRead: 2, wRangeWrite: 1, wPointRead: 2, wKey: 6,
 				pAbort: 0.2, pFailInsert: 0.15, multiBlock: 0.5, maxCols: 5, pKeyCol: 0.15, stableRows: [2]int{1, 5}, ghost: 0.25}, knownAvoid("C15", seed, run))
 		},
-		Exec: func(cs *Case) *World { return runConc(cs, concOracles{stream: true}) },
+		Exec: func(cs *Case) *World {
+			if cs.World == "stalled" {
+				return runStalled(cs)
+			}
+			return runConc(cs, concOracles{stream: true})
+		},
 		Real: realComponents, Stub: concStub,
 	})
 	register(&PropDef{
